@@ -6,12 +6,19 @@ observes it in two ways:
 
 * icontract post-conditions applied from the harness to ``try_coerce`` of
   every registered class (``pvm/c10_contracts.py``): same length / labels,
-  result passes the type's own ``check``; evaluations are counted per class, a
+  result passes the type's own ``check``, no individually unconvertible value
+  turned into a missing value; evaluations are counted per class, a
   class with zero evaluations is "not reached" (floor);
 * the driver's own element-wise oracle around direct calls:
     success  S1 same length and labels            S2 T.check(dtype(c'), c')
              S3 c'[i] == input == coerce_value(c[i]) for *exactly*
                 convertible c[i]; nulls stay null where T can hold them
+             S4 an element the type itself rejects (coerce_value raises / the
+                python-generic per-element conversion answers NA) is never a
+                missing value of a returned container: it has to be named by
+                a ParserError.  Judged for every element whatever its
+                neighbours are (a missing value elsewhere in the container
+                included); also a post-condition on every try_coerce call
              S5 try_coerce(c') == c'
     failure  F1 the exception is a ParserError
              F2 failure_cases == the elements whose individual conversion
@@ -50,7 +57,18 @@ def new_run():
         "try_coerce was invoked and at least one deciding clause (S2..S5, F2) "
         "was evaluated on it; distinct = hash of (dtype label, container "
         "description)",
-        ["'exact conversion' is decided by pvm/c10_gen.exact (value preserving "
+        ["S4 (no unconvertible value silently nulled) uses the type's own "
+         "coerce_value on both boxings of the cell as the reference; a string "
+         "that pandas reads as a missing-value marker ('', 'nan', 'None', '<NA>', "
+         "'NaT', ...) coming back as a missing value is counted, not judged; "
+         "a nulled cell is not judged either when coerce_value also rejects a "
+         "cell of the same python class that the same coercion turned into a "
+         "value (coerce_value is then no description of what the container "
+         "conversion accepts: pyarrow scalars / np.timedelta64 reject every "
+         "string / float); "
+         "a nulled cell for which coerce_value answers a value (int64 -2**63 "
+         "read back as NaT from a pyarrow duration) is counted, not judged",
+         "'exact conversion' is decided by pvm/c10_gen.exact (value preserving "
          "conversions only); lossy numeric coercion is not judged",
          "individual convertibility = the type's own coerce_value (pandas / "
          "numpy), coerce of the one-row slice (polars)",
@@ -79,12 +97,37 @@ F2_KINDS = ("failure-cases-differ-from-unconvertible-elements",
             "schema-level:failure-cases-differ-from-ParserError")
 
 
+S4_KINDS = ("unconvertible-value-silently-became-null",
+            "contract:no_unconvertible_value_silently_nulled")
+
+
+def _float_beyond_int64(text):
+    """the witness names a float cell that has no int64 image (vrepr 'float:...')"""
+    import re
+    m = re.search(r"float:(-?inf|-?[0-9.]+(?:e[+-]?[0-9]+)?)",
+                  text if isinstance(text, str) else "")
+    if not m:
+        return False
+    f = float(m.group(1))
+    return f in (float("inf"), float("-inf")) or f <= -2.0**63 or f >= 2.0**63
+
+
 def mech(kind, w):
     """Mechanism classifier: names the call site from the witness."""
     cls = w.get("class", "")
     short = cls.split(".")[-1]
     cont = w.get("container") or (w.get("context") or {}).get("container") or {}
     in_dtype = str(cont.get("dtype", ""))
+    if kind in S4_KINDS and short == "Timedelta64" and _float_beyond_int64(
+            w.get("detail") if kind.startswith("contract:") else w.get("input")):
+        # Series.astype('timedelta64[ns]') of a float container goes through
+        # an int64 cast: inf / -inf / <= -2**63 land on the NaT sentinel
+        return "numpy-timedelta-coerce-of-float-overflowing-int64-yields-nat"
+    if kind in S4_KINDS and short == "ArrowNull" and "category" in (
+            in_dtype, str(cont.get("dtype2", ""))):
+        # Categorical.astype(ArrowDtype(null)) casts the dictionary-encoded
+        # array: pyarrow answers with an all-null array instead of raising
+        return "arrow-null-coerce-of-categorical-nulls-every-value"
     empty = cont.get("values") == [] and cont.get("values2", []) == []
     exc = w.get("exc", "")
     if short == "ArrowDictionary" and kind in S2_KINDS:
@@ -403,6 +446,29 @@ def pandas_success(run, eng, t, kind, extra, c, out, base):
                                   zip(columns_of(c), columns_of(out))):
         vin, _ = elements(cin)
         vout, _ = elements(cout)
+        # S4: an element that cannot be converted individually is named by a
+        # ParserError, it does not vanish from a "successful" result (judged
+        # for every element, whatever its neighbours are)
+        held, nulled = K.silently_nulled(t, cin, cout)
+        run.count(f"{eng}:S4_value_not_silently_nulled", held)
+        if held:
+            n += 1
+            cls_ = "with-null" if len(vin) > held else "no-null"
+            run.count(f"{eng}:S4_containers:{cls_}")
+        for i, v, verdict in nulled:
+            if verdict == "unconvertible":
+                viol(run, "unconvertible-value-silently-became-null",
+                     dict(base, position=i, column=col, input=G.vrepr(v),
+                          output=K._brief(out)))
+            elif verdict == "null-by-coerce_value":
+                run.count(f"{eng}:S4_nulled_like_coerce_value")
+            elif verdict == "text-na-marker":
+                run.count("undecided:text-na-marker-became-null")
+            elif verdict == "reference-stricter-than-coerce":
+                run.count("undecided:nulled-value-of-a-class-coerce_value-rejects-"
+                          f"but-coerce-converts:{cname(t)}")
+            else:
+                run.count(f"undecided:nulled-value-coerce_value-not-conclusive:{cname(t)}")
         all_exact = kind is not None and all(
             G.is_null(v) or G.exact(kind, extra, v)[0] for v in vin)
         for i, v in enumerate(vin):
@@ -548,6 +614,11 @@ def pandas_failure(run, eng, t, c, err, base):
         got_vals = [_num_token(v) for v in got_vals]
         exp_vals = [_num_token(v) for v in exp_vals]
     run.count(f"{eng}:F2_failure_cases")
+    if exp_vals and any(G.is_null(v) for _, cin in columns_of(c) for v in elements(cin)[0]):
+        # the input class on which an element-wise test and a whole-container
+        # reduction part: a missing value next to an unconvertible element
+        run.count(f"{eng}:F2_null_beside_unconvertible")
+        run.count(f"{eng}:F2_null_beside_unconvertible:{G.pandas_kind(t)[0]}")
     if not exp_vals:
         run.count(f"{eng}:F2_container_failed_all_elements_convertible")
     if Counter(got_vals) != Counter(exp_vals):
@@ -970,6 +1041,12 @@ FLOORS = {
     "polars:S2_own_check": 330, "polars:S3_exact_elements": 99,
     "polars:S3_null_elements": 33, "polars:S5_idempotent": 330,
     "polars:F2_failure_cases": 198, "polars:S3_value_not_nulled": 400,
+    # S4 (no unconvertible value silently nulled) and the input class it needs
+    "contract_evals_total:no_unconvertible_value_silently_nulled": 3100,
+    "pandas:S4_value_not_silently_nulled": 1050, "numpy:S4_value_not_silently_nulled": 240,
+    "pandas:S4_containers:with-null": 90,
+    "pandas:F2_null_beside_unconvertible": 220, "numpy:F2_null_beside_unconvertible": 25,
+    "pandas:F2_null_beside_unconvertible:category": 8,
     "schema_level:pandas:expect_coercion_error": 1650,
     "schema_level:pandas:reason_DATATYPE_COERCION": 1650,
     "schema_level:pandas:expect_no_coercion_error": 990,
